@@ -1,18 +1,202 @@
 import Bee2V.C03.BashF
+import Bee2V.C03.Sponge
+import Bee2V.C03.Brng
+import Bee2V.C03.Botp
+import Bee2V.C03.BeltDrv
 import Bee2V.Base.Proto
+/-! line protocol of `drv_c03` (grammar: see props/C03.py) -/
 namespace Bee2V.C03.Drv
 open Bee2V.Proto Bee2V.C03
 
-/-- `bashf <block192>` -> block after bashF -/
-def hBashF : List String → String
-  | [b] =>
-    match parseHex b with
-    | some b => if b.length = 192 then toHex (bashF b) else "bad-op"
-    | none => "bad-op"
-  | _ => "bad-op"
+def parseAll : List String → Option (List (List UInt8))
+  | [] => some []
+  | t :: ts => do
+    let b ← (if t = "" then none else parseHex t)
+    let r ← parseAll ts
+    pure (b :: r)
 
-def dispatch : List String → String
-  | "bashf" :: a => hBashF a
-  | _ => "bad-op"
+def hx (s : String) : Option (List UInt8) := if s = "" then none else parseHex s
+
+/-- `bashf <block192>` -/
+def hBashF : List String → Option String
+  | [b] => do
+    let b ← hx b
+    if b.length = 192 then pure (toHex (bashF b)) else none
+  | _ => none
+
+/-- `hash <l> <chunk>…` : after each chunk a StepG of l/4 octets -/
+def hHash : List String → Option String
+  | l :: chunks => do
+    let l ← parseNat l
+    if l = 0 ∨ l % 16 ≠ 0 ∨ l > 256 then none
+    let cs ← parseAll chunks
+    let rec go : List (List UInt8) → Sp → List String
+      | [], _ => []
+      | c :: cs, st =>
+        let st := hashStepH bashF c st
+        toHex (hashStepG bashF (l / 4) st) :: go cs st
+    pure (" ".intercalate (go cs (hashStart l)))
+  | _ => none
+
+def lenOk (ann key : List UInt8) (l : Nat) : Bool :=
+  ann.length % 4 == 0 && ann.length ≤ 60 && key.length % 4 == 0 && key.length ≤ 60 &&
+    (key.length == 0 || key.length ≥ l / 8)
+
+/-- one automaton command token -/
+def prgCmd (tok : String) (st : PrgSt) : Option (PrgSt × Option String) :=
+  match tok.splitOn ":" with
+  | ["R", a, k] => do
+    let a ← hx a; let k ← hx k
+    if !lenOk a k st.l then none
+    pure (prgRestart bashF a k st, none)
+  | ["A", x] => do let x ← hx x; pure (prgAbsorb bashF x st, none)
+  | ["a", x] => do let x ← hx x; pure (prgAbsorbStep bashF x st, none)
+  | ["S", n] => do let n ← parseNat n; let r := prgSqueeze bashF (zeros n) st; pure (r.1, some (toHex r.2))
+  | ["s", n] => do let n ← parseNat n; let r := prgSqueezeStep bashF (zeros n) st; pure (r.1, some (toHex r.2))
+  | ["E", x] => do
+    let x ← hx x
+    if !prgIsKeymode st then none
+    let r := prgEncr bashF x st; pure (r.1, some (toHex r.2))
+  | ["e", x] => do let x ← hx x; let r := prgEncrStep bashF x st; pure (r.1, some (toHex r.2))
+  | ["D", x] => do
+    let x ← hx x
+    if !prgIsKeymode st then none
+    let r := prgDecr bashF x st; pure (r.1, some (toHex r.2))
+  | ["d", x] => do let x ← hx x; let r := prgDecrStep bashF x st; pure (r.1, some (toHex r.2))
+  | ["T"] => pure (prgRatchet bashF st, none)
+  | _ => none
+
+def prgRun : List String → PrgSt → List String → Option (PrgSt × List String)
+  | [], st, acc => some (st, acc.reverse)
+  | t :: ts, st, acc => do
+    let r ← prgCmd t st
+    prgRun ts r.1 (match r.2 with | some o => o :: acc | none => acc)
+
+/-- `prg <l> <d> <ann> <key> <cmd>…` -> outputs of S/E/D commands, then `pos buf_len s` -/
+def hPrg : List String → Option String
+  | l :: d :: a :: k :: cmds => do
+    let l ← parseNat l; let d ← parseNat d
+    let a ← hx a; let k ← hx k
+    if !(l = 128 ∨ l = 192 ∨ l = 256) ∨ !(d = 1 ∨ d = 2) then none
+    if !lenOk a k l then none
+    let r ← prgRun cmds (prgStart l d a k) []
+    pure (" ".intercalate (r.2 ++ [toString r.1.sp.pos, toString r.1.sp.bufLen, toHex r.1.sp.s]))
+  | _ => none
+
+/-- `ctrinc <mem64>` -> brngBlockInc on the first 32 octets of a 64-octet memory -/
+def hCtrInc : List String → Option String
+  | [m] => do
+    let m ← hx m
+    if m.length ≠ 64 then none
+    pure (toHex (blockInc 8 m))
+  | _ => none
+
+/-- `ctr <key32> <iv32> <buf>…` -> per request the generated octets, then the StepG value -/
+def hCtr : List String → Option String
+  | k :: iv :: bufs => do
+    let k ← hx k; let iv ← hx iv
+    if k.length ≠ 32 ∨ iv.length ≠ 32 then none
+    let bs ← parseAll bufs
+    let rec go : List (List UInt8) → CtrSt → List String
+      | [], st => [toHex (ctrStepG st)]
+      | b :: bs, st => let r := ctrStepR 8 b st; toHex r.2 :: go bs r.1
+    pure (" ".intercalate (go bs (ctrStart k iv)))
+  | _ => none
+
+def parseNats : List String → Option (List Nat)
+  | [] => some []
+  | t :: ts => do let n ← parseNat t; let r ← parseNats ts; pure (n :: r)
+
+/-- `hmacgen <key> <iv> <count>…` -/
+def hHmacGen : List String → Option String
+  | k :: iv :: ns => do
+    let k ← hx k; let iv ← hx iv
+    let ns ← parseNats ns
+    let rec go : List Nat → HmacGenSt → List String
+      | [], _ => []
+      | n :: ns, st => let r := hmacGenStepR n st; toHex r.2 :: go ns r.1
+    pure (" ".intercalate (go ns (hmacGenStart k iv)))
+  | _ => none
+
+def str (b : List UInt8) : String := String.ofList (b.map fun c => Char.ofNat c.toNat)
+
+/-- `hotp <digit> <key> <ctr8> <n>` -> n passwords, then the counter -/
+def hHotp : List String → Option String
+  | [dg, k, c, n] => do
+    let dg ← parseNat dg; let k ← hx k; let c ← hx c; let n ← parseNat n
+    if dg < 4 ∨ dg > 9 ∨ c.length ≠ 8 then none
+    let rec go : Nat → HotpSt → List String
+      | 0, st => [toHex st.ctr]
+      | n + 1, st => let r := hotpStepR st; str r.2 :: go n r.1
+    pure (" ".intercalate (go n (hotpStepS c (hotpStart dg k))))
+  | _ => none
+
+/-- `hotpv <digit> <key> <ctr8> <otp-hex>` -> result, counter -/
+def hHotpV : List String → Option String
+  | [dg, k, c, o] => do
+    let dg ← parseNat dg; let k ← hx k; let c ← hx c; let o ← hx o
+    if dg < 4 ∨ dg > 9 ∨ c.length ≠ 8 ∨ o.any (· == 0) then none
+    let r := hotpStepV o (hotpStepS c (hotpStart dg k))
+    pure s!"{if r.2 then 1 else 0} {toHex r.1.ctr}"
+  | _ => none
+
+/-- `totp <digit> <key> <t>` -/
+def hTotp : List String → Option String
+  | [dg, k, t] => do
+    let dg ← parseNat dg; let k ← hx k; let t ← parseNat t
+    if dg < 4 ∨ dg > 9 ∨ t ≥ 2 ^ 64 then none
+    pure (str (totpStepR dg (Belt.hmacStart k) t))
+  | _ => none
+
+/-- `ocra <suite-hex> <key> <q> <ctr8> <p> <s> <t> <n>` -/
+def hOcra : List String → Option String
+  | [su, k, q, c, p, s, t, n] => do
+    let su ← hx su; let k ← hx k; let q ← hx q; let c ← hx c; let p ← hx p; let s ← hx s
+    let t ← parseNat t; let n ← parseNat n
+    if su.any (· == 0) ∨ t ≥ 2 ^ 64 then none
+    match ocraStart su k with
+    | none => pure "bad-format"
+    | some st =>
+      if q.length < 4 ∨ q.length > 2 * st.qMax then pure "bad-params"
+      else if (st.ctrLen ≠ 0 ∧ c.length ≠ 8) ∨ (st.pLen ≠ 0 ∧ p.length ≠ st.pLen) ∨ (st.sLen ≠ 0 ∧ s.length ≠ st.sLen) then none
+      else
+        let rec go : Nat → OcraSt → List String
+          | 0, st => [toHex st.ctr]
+          | n + 1, st => let r := ocraStepR q t st; str r.2 :: go n r.1
+        pure (" ".intercalate (go n (ocraStepS c p s st)))
+  | _ => none
+
+/-- `ctrnext <ctr8>` -/
+def hCtrNext : List String → Option String
+  | [c] => do let c ← hx c; if c.length ≠ 8 then none else pure (toHex (botpCtrNext c))
+  | _ => none
+
+/-- `dt <digit> <mac>` (mac_len ≥ 20) -/
+def hDT : List String → Option String
+  | [dg, m] => do
+    let dg ← parseNat dg; let m ← hx m
+    if dg < 4 ∨ dg > 9 ∨ m.length < 20 then none
+    pure (str (botpDT dg m))
+  | _ => none
+
+def dispatch (toks : List String) : String :=
+  match Belt.handleBelt toks with
+  | some r => r
+  | none =>
+    let r := match toks with
+      | "bashf" :: a => hBashF a
+      | "hash" :: a => hHash a
+      | "prg" :: a => hPrg a
+      | "ctrinc" :: a => hCtrInc a
+      | "ctr" :: a => hCtr a
+      | "hmacgen" :: a => hHmacGen a
+      | "hotp" :: a => hHotp a
+      | "hotpv" :: a => hHotpV a
+      | "totp" :: a => hTotp a
+      | "ocra" :: a => hOcra a
+      | "ctrnext" :: a => hCtrNext a
+      | "dt" :: a => hDT a
+      | _ => none
+    r.getD "bad-op"
 
 end Bee2V.C03.Drv
